@@ -61,8 +61,8 @@ CHECKS = {
    text='Strings.tla: pool of strings mixing 1-4 byte characters (and the lists/vectors the conversions produce); each step applies one string or character procedure of the statement with start/end/index from -1..len+1, characters from a 17-character palette of every UTF-8 width, integers across the surrogate gap and above U+10FFFF, and wrong-typed arguments. TLC enumerates all single operations on three pools (15.8k behaviours; invariants: only scalar values in strings, mutators keep lengths, frame condition) and simulates sequences of length 10; the harness replays them comparing result and every pool object after each step.',
    note='Case mapping and character classes from the explicit table CharTable.tla (ASCII + palette, taken from the Unicode data files); U+00DF and characters outside the table: any outcome accepted.', ref='5 C15'),
 
- 'C06': dict(cat='exploration', tech='replay of TLC-generated call descriptors from Builtins.tla (signature table over a 41-value palette) on the real VM with crash/hang isolation; trace validation of text entry points (Trace_API)',
-   text='Builtins.tla holds the signature table of the global procedures and a palette of 41 values of every kind with boundary values (incl. zeros left in rational and bignum representation by cancelling arithmetic, data holding procedures, macro values and continuations, circular list, self-containing vector, i64 extremes, bignum, rationals, inf, NaN, -0.0, procedures, continuation, macro value, unspecified value). TLC enumerates the calls (all procedures x arities 0 and 1 completely, arity 2 by stride or completely, arities 3-5 by stride); the harness executes each call in a real VM, attributes a crash or hang of the process to the call in flight, renders every error and value as text, and evaluates a probe afterwards. Generated texts (random Unicode, token soup, mutated programs, nesting to 64) go through scan, parse, eval_text and sliced evaluation and TLC (Trace_API) rejects any outcome other than a value or an error.',
+ 'C06': dict(cat='exploration', tech='replay of TLC-generated call descriptors from Builtins.tla (signature table over a 42-value palette) on the real VM with crash/hang isolation; trace validation of text entry points (Trace_API)',
+   text='Builtins.tla holds the signature table of the global procedures and a palette of 42 values of every kind with boundary values (incl. zeros left in rational and bignum representation by cancelling arithmetic, data holding procedures, macro values and continuations, circular list, self-containing vector, i64 extremes, bignum, rationals, inf, NaN, -0.0, procedures, continuation, macro value, unspecified value). TLC enumerates the calls (all procedures x arities 0 and 1 completely, arity 2 by stride or completely, arities 3-5 by stride); the harness executes each call in a real VM, attributes a crash or hang of the process to the call in flight, renders every error and value as text, and evaluates a probe afterwards. Generated texts (random Unicode, token soup, mutated programs, nesting to 64) go through scan, parse, eval_text and sliced evaluation and TLC (Trace_API) rejects any outcome other than a value or an error.',
    note='C06 demands only value-or-error; what R7RS prescribes for each call is emitted too and counted, not enforced. Allocation sizes and exponents beyond 10^6 are outside the property. Two open known findings (cyclic data).', ref='5 C06'),
  'C10': dict(cat='exploration', tech='trace validation of write/read/eval records against Codec.tla (write injective, read its left inverse, write stable, quote-eval identity) with TLC',
    text='Codec.tla states what a printer/reader pair satisfies with the text as an opaque token. The harness generates data (all kinds, finite doubles by bit pattern, integers across the fixnum/bignum boundary, rationals, all Unicode classes in characters and strings, reader-produced symbols, containers to depth 6), records write(d), read of that text, write again and the evaluation of (quote d); TLC checks every record structurally (numbers by value and exactness) and the injectivity of write on records sorted by text.',
